@@ -9,10 +9,12 @@ import (
 	"net"
 	"net/http"
 	"regexp"
+	"sort"
 	"strings"
 	"sync"
 	"time"
 
+	"github.com/rs/xid"
 	"github.com/rs/zerolog"
 	"github.com/rs/zerolog/diode/verifh/evid"
 	"github.com/rs/zerolog/diode/verifh/jsonv"
@@ -32,10 +34,12 @@ const (
 	rRF
 	rFlush
 	rRFerr
+	rW0
+	rPanic
 	nROps
 )
 
-var rOpNames = [...]string{"WriteHeader(201)", "WriteHeader(404)", "Write(10)", "Write(short)", "Write(err)", "ReadFrom(7)", "Flush", "ReadFrom(3 bytes then error)"}
+var rOpNames = [...]string{"WriteHeader(201)", "WriteHeader(404)", "Write(10)", "Write(short)", "Write(err)", "ReadFrom(7)", "Flush", "ReadFrom(3 bytes then error)", "Write(0 bytes)", "panic(http.ErrAbortHandler)"}
 
 // fake ResponseWriters of three capability sets; they record what was actually sent.
 type fakeRW struct {
@@ -92,13 +96,29 @@ func (f fakeFullRW) ReadFrom(r io.Reader) (int64, error) {
 	return int64(len(b)), err
 }
 
+// partial capability sets: Flusher + ReaderFrom without Hijacker / CloseNotifier, and an HTTP/2-like writer
+// (Flusher + CloseNotifier, no Hijacker, no ReaderFrom)
+type fakeFlushRFRW struct{ *fakeRW }
+
+func (f fakeFlushRFRW) Flush() { f.calls = append(f.calls, "Flush") }
+func (f fakeFlushRFRW) ReadFrom(r io.Reader) (int64, error) {
+	return fakeFullRW{f.fakeRW}.ReadFrom(r)
+}
+
+type fakeH2RW struct{ *fakeRW }
+
+func (f fakeH2RW) Flush()                   { f.calls = append(f.calls, "Flush") }
+func (f fakeH2RW) CloseNotify() <-chan bool { return make(chan bool) }
+
+const nCaps = 5
+
 type failingReader struct{}
 
 func (failingReader) Read([]byte) (int, error) { return 0, errors.New("source failed") }
 
 type reqSpec struct {
 	id     int
-	caps   int // 0 basic, 1 +Flusher, 2 full
+	caps   int // 0 basic, 1 +Flusher, 2 full, 3 Flusher+ReaderFrom, 4 Flusher+CloseNotifier
 	script []int
 	k      int // events logged by the final handler
 }
@@ -130,8 +150,48 @@ type fieldH struct {
 }
 
 func reqVals(id int) (method, url, remote, ua, ref, custom, host string) {
-	return fmt.Sprintf("MR%dX", id), fmt.Sprintf("/path/r%dx?q=r%dx", id, id), fmt.Sprintf("10.%d.%d.%d:%d", id>>16&255, id>>8&255, id&255, 1024+id%50000),
-		fmt.Sprintf("ua-r%dx", id), fmt.Sprintf("http://ref/r%dx", id), fmt.Sprintf("c-r%dx", id), fmt.Sprintf("host-r%dx.example:80", id)
+	method, url = fmt.Sprintf("MR%dX", id), fmt.Sprintf("/path/r%dx?q=r%dx", id, id)
+	remote = fmt.Sprintf("10.%d.%d.%d:%d", id>>16&255, id>>8&255, id&255, 1024+id%50000)
+	ua, ref, custom, host = fmt.Sprintf("ua-r%dx", id), fmt.Sprintf("http://ref/r%dx", id), fmt.Sprintf("c-r%dx", id), fmt.Sprintf("host-r%dx.example:80", id)
+	// some requests lack an attribute (the handlers then add no field) or carry another shape of it
+	switch id % 16 {
+	case 1:
+		ua = ""
+	case 2:
+		ref = ""
+	case 3:
+		custom = ""
+	case 4:
+		remote = ""
+	case 5:
+		remote = fmt.Sprintf("[2001:db8::%x]:%d", id, 1024+id%50000)
+	case 6:
+		remote = fmt.Sprintf("unix-r%dx", id) // no port
+	case 7:
+		host = fmt.Sprintf("host-r%dx.example", id) // no port
+	}
+	return
+}
+
+func reqProto(id int) (string, int, int) {
+	switch id % 3 {
+	case 0:
+		return "HTTP/1.0", 1, 0
+	case 1:
+		return "HTTP/2.0", 2, 0
+	}
+	return "HTTP/1.1", 1, 1
+}
+
+func wantRemoteIP(r string) string {
+	if r == "" {
+		return ""
+	}
+	h, _, err := net.SplitHostPort(r)
+	if err != nil {
+		return r
+	}
+	return h
 }
 
 var c18handlers = []fieldH{
@@ -141,13 +201,12 @@ var c18handlers = []fieldH{
 	{"RemoteAddrHandler", "remote", func() func(http.Handler) http.Handler { return hlog.RemoteAddrHandler("remote") }, func(id int) string { _, _, r, _, _, _, _ := reqVals(id); return r }, false},
 	{"RemoteIPHandler", "ip", func() func(http.Handler) http.Handler { return hlog.RemoteIPHandler("ip") }, func(id int) string {
 		_, _, r, _, _, _, _ := reqVals(id)
-		h, _, _ := net.SplitHostPort(r)
-		return h
+		return wantRemoteIP(r)
 	}, false},
 	{"UserAgentHandler", "ua", func() func(http.Handler) http.Handler { return hlog.UserAgentHandler("ua") }, func(id int) string { _, _, _, u, _, _, _ := reqVals(id); return u }, false},
 	{"RefererHandler", "referer", func() func(http.Handler) http.Handler { return hlog.RefererHandler("referer") }, func(id int) string { _, _, _, _, r, _, _ := reqVals(id); return r }, false},
-	{"ProtoHandler", "proto", func() func(http.Handler) http.Handler { return hlog.ProtoHandler("proto") }, func(id int) string { return "HTTP/1.1" }, false},
-	{"HTTPVersionHandler", "httpver", func() func(http.Handler) http.Handler { return hlog.HTTPVersionHandler("httpver") }, func(id int) string { return "1.1" }, false},
+	{"ProtoHandler", "proto", func() func(http.Handler) http.Handler { return hlog.ProtoHandler("proto") }, func(id int) string { p, _, _ := reqProto(id); return p }, false},
+	{"HTTPVersionHandler", "httpver", func() func(http.Handler) http.Handler { return hlog.HTTPVersionHandler("httpver") }, func(id int) string { p, _, _ := reqProto(id); return strings.TrimPrefix(p, "HTTP/") }, false},
 	{"CustomHeaderHandler", "custom", func() func(http.Handler) http.Handler { return hlog.CustomHeaderHandler("custom", "X-Custom") }, func(id int) string { _, _, _, _, _, c, _ := reqVals(id); return c }, false},
 	{"HostHandler", "host", func() func(http.Handler) http.Handler { return hlog.HostHandler("host") }, func(id int) string { _, _, _, _, _, _, h := reqVals(id); return h }, false},
 	{"HostHandler(trim)", "hostname", func() func(http.Handler) http.Handler { return hlog.HostHandler("hostname", true) }, func(id int) string {
@@ -155,6 +214,8 @@ var c18handlers = []fieldH{
 		return strings.TrimSuffix(h, ":80")
 	}, false},
 	{"RequestIDHandler", "req_id", func() func(http.Handler) http.Handler { return hlog.RequestIDHandler("req_id", "X-Req-Id") }, nil, false},
+	{"RequestIDHandler(no header)", "req_id2", func() func(http.Handler) http.Handler { return hlog.RequestIDHandler("req_id2", "") }, nil, false},
+	{"RequestIDHandler(no field)", "", func() func(http.Handler) http.Handler { return hlog.RequestIDHandler("", "X-Req-Id3") }, nil, false},
 	{"EtagHandler", "etag", func() func(http.Handler) http.Handler { return hlog.EtagHandler("etag") }, func(id int) string { return fmt.Sprintf("etag-r%dx", id) }, true},
 	{"ResponseHeaderHandler", "resph", func() func(http.Handler) http.Handler { return hlog.ResponseHeaderHandler("resph", "X-Resp") }, func(id int) string { return fmt.Sprintf("resp-r%dx", id) }, true},
 }
@@ -164,8 +225,8 @@ var reMarker = regexp.MustCompile(`[rR](\d+)[xX]`)
 func c18(args []string) int {
 	f := mustFlags(args)
 	out := evid.New("C18")
-	rounds := f.N(290, 2400)
-	maxLen := 4
+	rounds := f.N(290, 4600)
+	maxLen := 3
 	if f.Thorough() {
 		maxLen = 5
 	}
@@ -177,7 +238,15 @@ func c18(args []string) int {
 		p *= nROps
 	}
 	scriptOf := func(i int) []int {
-		i %= nScripts
+		if i >= nScripts {
+			// beyond the enumeration: random longer scripts
+			rr := rng.New(f.Seed, 0xc185, uint64(i))
+			s := make([]int, maxLen+1+rr.Intn(5))
+			for k := range s {
+				s[k] = rr.Intn(nROps)
+			}
+			return s
+		}
 		l, p := 0, 1
 		for i >= p {
 			i -= p
@@ -198,7 +267,7 @@ func c18(args []string) int {
 		}
 		specs := make([]reqSpec, R)
 		for i := range specs {
-			specs[i] = reqSpec{id: round*1000 + i + 1, caps: scriptIdx % 3, script: scriptOf(scriptIdx / 3), k: 1 + (scriptIdx % 2)}
+			specs[i] = reqSpec{id: round*1000 + i + 1, caps: scriptIdx % nCaps, script: scriptOf(scriptIdx / nCaps), k: 1 + (scriptIdx % 2)}
 			scriptIdx++
 		}
 		if !f.Mine(round) {
@@ -208,6 +277,11 @@ func c18(args []string) int {
 	}
 	out.Extra["response_scripts_enumerated_up_to_length"] = maxLen
 	out.Extra["distinct_scripts"] = nScripts
+	out.Extra["enumerated_script_x_capability_pairs"] = nScripts * nCaps
+	if scriptIdx < nScripts*nCaps {
+		out.Inconc(fmt.Sprintf("only %d of the %d (script, capability set) pairs were served", scriptIdx, nScripts*nCaps))
+	}
+	out.Extra["requests_beyond_the_enumeration"] = scriptIdx - nScripts*nCaps
 	out.Finish(f)
 	return 0
 }
@@ -232,10 +306,14 @@ func c18round(out *evid.Out, f *evid.Flags, round int, specs []reqSpec) {
 		chosen[i], chosen[j] = chosen[j], chosen[i]
 	}
 	accessPos := r.Intn(len(chosen) + 1)
-	withAccess := r.Chance(4, 5)
+	access2Pos := -1 // a second, nested AccessHandler in a quarter of the rounds
+	if r.Chance(1, 4) {
+		access2Pos = r.Intn(len(chosen) + 1)
+	}
+	preSeed := r.Chance(1, 3) // some requests arrive with an id already in their context (CtxWithID)
 	var accMu sync.Mutex
-	access := map[int]accessRec{}
-	accessCount := map[int]int{}
+	access := map[[2]int]accessRec{}
+	accessCount := map[[2]int]int{}
 	idOf := func(req *http.Request) int {
 		var id int
 		fmt.Sscanf(req.Header.Get("X-Verif-Id"), "%d", &id)
@@ -247,6 +325,7 @@ func c18round(out *evid.Out, f *evid.Flags, round int, specs []reqSpec) {
 	}
 	var reqIDMu sync.Mutex
 	reqIDSeen := map[int]string{}
+	seeded := map[int]string{}
 	final := http.HandlerFunc(func(w http.ResponseWriter, req *http.Request) {
 		id := idOf(req)
 		sp := specByID[id]
@@ -269,6 +348,8 @@ func c18round(out *evid.Out, f *evid.Flags, round int, specs []reqSpec) {
 				w.WriteHeader(404)
 			case rW:
 				w.Write([]byte("0123456789"))
+			case rW0:
+				w.Write(nil)
 			case rWshort:
 				w.Write([]byte("SHORT56789AB"))
 			case rWerr:
@@ -291,27 +372,48 @@ func c18round(out *evid.Out, f *evid.Flags, round int, specs []reqSpec) {
 				} else {
 					w.Write([]byte("xyz"))
 				}
+			case rPanic:
+				panic(http.ErrAbortHandler) // what net/http documents for aborting a response
 			}
 		}
 	})
 	var h http.Handler = final
+	mkAccess := func(which int, next http.Handler) http.Handler {
+		return hlog.AccessHandler(func(req *http.Request, status, size int, d time.Duration) {
+			id := idOf(req)
+			accMu.Lock()
+			access[[2]int{id, which}] = accessRec{status, size, id}
+			accessCount[[2]int{id, which}]++
+			accMu.Unlock()
+			if which == 0 {
+				hlog.FromRequest(req).Info().Int("status", status).Int("size", size).Msg(fmt.Sprintf("access r%dx", id))
+			}
+		})(next)
+	}
 	// build inside-out
 	order := append([]int{}, chosen...)
 	for pos := len(order); pos >= 0; pos-- {
-		if withAccess && pos == accessPos {
-			h = hlog.AccessHandler(func(req *http.Request, status, size int, d time.Duration) {
-				id := idOf(req)
-				accMu.Lock()
-				access[id] = accessRec{status, size, id}
-				accessCount[id]++
-				accMu.Unlock()
-				hlog.FromRequest(req).Info().Int("status", status).Int("size", size).Msg(fmt.Sprintf("access r%dx", id))
-			})(h)
+		if pos == access2Pos {
+			h = mkAccess(1, h)
+		}
+		if pos == accessPos {
+			h = mkAccess(0, h)
 		}
 		if pos > 0 {
 			h = c18handlers[order[pos-1]].mk()(h)
 		}
 	}
+	inner := h
+	h = http.HandlerFunc(func(w http.ResponseWriter, req *http.Request) {
+		if id := idOf(req); preSeed && id%5 == 0 {
+			x := xid.New()
+			reqIDMu.Lock()
+			seeded[id] = x.String()
+			reqIDMu.Unlock()
+			req = req.WithContext(hlog.CtxWithID(req.Context(), x))
+		}
+		inner.ServeHTTP(w, req)
+	})
 	h = hlog.NewHandler(base)(h)
 	// serve concurrently
 	fakes := make([]*fakeRW, len(specs))
@@ -327,9 +429,12 @@ func c18round(out *evid.Out, f *evid.Flags, round int, specs []reqSpec) {
 		}
 		req.RemoteAddr = remote
 		req.Host = host
-		req.Header.Set("User-Agent", ua)
-		req.Header.Set("Referer", ref)
-		req.Header.Set("X-Custom", custom)
+		req.Proto, req.ProtoMajor, req.ProtoMinor = reqProto(sp.id)
+		for k, v := range map[string]string{"User-Agent": ua, "Referer": ref, "X-Custom": custom} {
+			if v != "" {
+				req.Header.Set(k, v)
+			}
+		}
 		req.Header.Set("X-Verif-Id", fmt.Sprint(sp.id))
 		fk := &fakeRW{hdr: http.Header{}}
 		fakes[i] = fk
@@ -339,10 +444,19 @@ func c18round(out *evid.Out, f *evid.Flags, round int, specs []reqSpec) {
 			w = fakeFlushRW{fk}
 		case 2:
 			w = fakeFullRW{fk}
+		case 3:
+			w = fakeFlushRFRW{fk}
+		case 4:
+			w = fakeH2RW{fk}
 		}
 		wg.Add(1)
 		go func() {
 			defer wg.Done()
+			defer func() {
+				if x := recover(); x != nil && x != http.ErrAbortHandler {
+					panic(x)
+				}
+			}()
 			<-start
 			h.ServeHTTP(w, req)
 		}()
@@ -377,64 +491,112 @@ func c18round(out *evid.Out, f *evid.Flags, round int, specs []reqSpec) {
 		}
 		byReq[id] = append(byReq[id], obj)
 	}
+	hasIDHandler := false
+	for _, hi := range order {
+		if strings.HasPrefix(c18handlers[hi].name, "RequestIDHandler") {
+			hasIDHandler = true
+		}
+	}
+	idsThisRound := map[string]int{}
 	for i := range specs {
 		sp := &specs[i]
 		evs := byReq[sp.id]
-		wantN := sp.k
-		if withAccess {
-			wantN++
+		// the script as far as it is executed (a panic ends it)
+		script := sp.script
+		for k, op := range script {
+			if op == rPanic {
+				script = script[:k+1]
+				break
+			}
 		}
-		if len(evs) != wantN {
-			viol("event-count", fmt.Sprintf("request %d: %d events at the destination, expected %d", sp.id, len(evs), wantN))
+		nFinal, nAccess := 0, 0
+		for _, obj := range evs {
+			if msg := obj.Get("message"); msg != nil && strings.HasPrefix(msg.Str, "final") {
+				nFinal++
+			} else if msg != nil && strings.HasPrefix(msg.Str, "access") {
+				nAccess++
+			}
+		}
+		if len(evs) != sp.k+1 || nFinal != sp.k || nAccess != 1 {
+			viol("event-count", fmt.Sprintf("request %d: %d events at the destination (%d from the final handler, %d from the access callback), expected %d + 1", sp.id, len(evs), nFinal, nAccess, sp.k))
 			continue
 		}
-		// expected keys of the final handler's events: level, svc, pre-fields in chain order, i, message
-		var pre []int
-		for _, hi := range order {
-			if !c18handlers[hi].post {
-				pre = append(pre, hi)
+		// the request id every part of the chain must agree on
+		reqIDMu.Lock()
+		rid := reqIDSeen[sp.id]
+		pre0 := seeded[sp.id]
+		reqIDMu.Unlock()
+		if hasIDHandler || pre0 != "" {
+			if rid == "" || (pre0 != "" && rid != pre0) {
+				viol("request-id", fmt.Sprintf("request %d: IDFromRequest in the final handler gave %q, id seeded with CtxWithID %q", sp.id, rid, pre0))
+			}
+			if hasIDHandler {
+				idsThisRound[rid]++
 			}
 		}
+		// expected fields: a handler adds its field when the attribute is present; pre-handlers add it before the
+		// next handler runs (so every event of the request has it), post-handlers after next returned (the access
+		// event has those of the handlers nested inside the AccessHandler)
+		wantVal := func(hh fieldH) (string, bool) {
+			if hh.want != nil {
+				v := hh.want(sp.id)
+				return v, v != ""
+			}
+			return rid, hh.key != ""
+		}
 		for _, obj := range evs {
-			msg := obj.Get("message")
-			if msg == nil || !strings.HasPrefix(msg.Str, "final") {
-				continue
-			}
-			var wantKeys []string
-			wantKeys = append(wantKeys, "level", "svc")
-			for _, hi := range pre {
-				wantKeys = append(wantKeys, c18handlers[hi].key)
-			}
-			wantKeys = append(wantKeys, "i", "message")
-			var got []string
-			for _, kv := range obj.Obj {
-				got = append(got, kv.Key)
-			}
-			if fmt.Sprint(got) != fmt.Sprint(wantKeys) {
-				viol("event-fields", fmt.Sprintf("request %d: event keys %v, expected %v", sp.id, got, wantKeys))
-				continue
-			}
-			for _, hi := range pre {
+			msg := obj.Get("message").Str
+			want := map[string]string{}
+			for pos, hi := range order {
 				hh := c18handlers[hi]
-				v := obj.Get(hh.key)
-				if hh.want != nil {
-					if v.Kind != jsonv.String || v.Str != hh.want(sp.id) {
-						viol("field-value", fmt.Sprintf("request %d: %s=%s, expected %q", sp.id, hh.key, v.Raw, hh.want(sp.id)))
-					}
-				} else { // request id: equals response header and IDFromRequest
-					hv := fakes[i].hdr.Get("X-Req-Id")
-					reqIDMu.Lock()
-					seen := reqIDSeen[sp.id]
-					reqIDMu.Unlock()
-					if v.Kind != jsonv.String || v.Str != hv || v.Str != seen || hv == "" {
-						viol("request-id", fmt.Sprintf("request %d: req_id field %s, response header %q, IDFromRequest %q", sp.id, v.Raw, hv, seen))
-					}
+				if hh.post && !(strings.HasPrefix(msg, "access") && pos >= accessPos) {
+					continue
+				}
+				if v, ok := wantVal(hh); ok {
+					want[hh.key] = v
+				}
+			}
+			var gotKeys, wantKeys []string
+			for _, kv := range obj.Obj {
+				switch kv.Key {
+				case "level", "svc", "i", "message", "status", "size":
+					continue
+				}
+				gotKeys = append(gotKeys, kv.Key)
+			}
+			for k := range want {
+				wantKeys = append(wantKeys, k)
+			}
+			sort.Strings(gotKeys)
+			sort.Strings(wantKeys)
+			if fmt.Sprint(gotKeys) != fmt.Sprint(wantKeys) {
+				viol("event-fields", fmt.Sprintf("request %d, event %q: request fields %v, expected %v", sp.id, msg, gotKeys, wantKeys))
+				continue
+			}
+			for k, wv := range want {
+				if v := obj.Get(k); v.Kind != jsonv.String || (v.Str != wv && !(k == "etag" && v.Str == `"`+wv+`"`)) { // the Etag header value with or without its quotes
+					viol("field-value", fmt.Sprintf("request %d, event %q: %s=%s, expected %q", sp.id, msg, k, v.Raw, wv))
+				}
+			}
+			if sv := obj.Get("svc"); sv == nil || sv.Str != "base" {
+				viol("field-value", fmt.Sprintf("request %d, event %q: the base logger's context is missing", sp.id, msg))
+			}
+		}
+		for _, hi := range order {
+			switch c18handlers[hi].name {
+			case "RequestIDHandler":
+				if hv := fakes[i].hdr.Get("X-Req-Id"); hv != rid {
+					viol("request-id", fmt.Sprintf("request %d: response header X-Req-Id %q, IDFromRequest %q", sp.id, hv, rid))
+				}
+			case "RequestIDHandler(no field)":
+				if hv := fakes[i].hdr.Get("X-Req-Id3"); hv != rid {
+					viol("request-id", fmt.Sprintf("request %d: response header X-Req-Id3 %q, IDFromRequest %q", sp.id, hv, rid))
 				}
 			}
 		}
 		// AccessHandler: status and size actually sent
 		wantStatus, wantSize := 0, 0
-		for _, op := range sp.script {
+		for _, op := range script {
 			switch op {
 			case rWHa:
 				if wantStatus == 0 {
@@ -444,7 +606,7 @@ func c18round(out *evid.Out, f *evid.Flags, round int, specs []reqSpec) {
 				if wantStatus == 0 {
 					wantStatus = 404
 				}
-			case rW, rWshort, rWerr, rRF, rRFerr:
+			case rW, rW0, rWshort, rWerr, rRF, rRFerr:
 				if wantStatus == 0 {
 					wantStatus = 200
 				}
@@ -465,21 +627,36 @@ func c18round(out *evid.Out, f *evid.Flags, round int, specs []reqSpec) {
 			fmt.Printf("HARNESS-ERROR c18: fake writer recorded (%d,%d), script model says (%d,%d) for %v\n", fk.status, fk.accepted, wantStatus, wantSize, sp.script)
 			out.Count("harness_inconsistency", 1)
 		}
-		if withAccess {
-			ar, ok := access[sp.id]
-			if !ok || accessCount[sp.id] != 1 {
-				viol("access-calls", fmt.Sprintf("request %d: AccessHandler callback ran %d times", sp.id, accessCount[sp.id]))
+		for which := 0; which < 2; which++ {
+			if which == 1 && access2Pos < 0 {
+				continue
+			}
+			key := [2]int{sp.id, which}
+			ar, ok := access[key]
+			if !ok || accessCount[key] != 1 {
+				viol("access-calls", fmt.Sprintf("request %d: AccessHandler callback %d ran %d times", sp.id, which, accessCount[key]))
 			} else if ar.status != fk.status || ar.size != fk.accepted {
-				names := make([]string, len(sp.script))
-				for k, op := range sp.script {
+				names := make([]string, len(script))
+				for k, op := range script {
 					names[k] = rOpNames[op]
 				}
-				viol("access-status-size", fmt.Sprintf("request %d (capability set %d, calls %v): AccessHandler reported status=%d size=%d, the ResponseWriter recorded status=%d accepted=%d bytes (%v)",
-					sp.id, sp.caps, names, ar.status, ar.size, fk.status, fk.accepted, fk.calls))
+				viol("access-status-size", fmt.Sprintf("request %d (capability set %d, calls %v): AccessHandler %d reported status=%d size=%d, the ResponseWriter recorded status=%d accepted=%d bytes (%v)",
+					sp.id, sp.caps, names, which, ar.status, ar.size, fk.status, fk.accepted, fk.calls))
 			}
 		}
 		out.Count("requests_served", 1)
-		out.Case(rng.HashStr(fmt.Sprint(sp.script, sp.caps, order, accessPos, withAccess)), len(sp.script) > 0 || len(order) > 0)
+		if len(script) > 0 && script[len(script)-1] == rPanic {
+			out.Count("requests_aborted_by_panic", 1)
+		}
+		out.Case(rng.HashStr(fmt.Sprint(sp.script, sp.caps, order, accessPos, access2Pos)), len(sp.script) > 0 || len(order) > 0)
+	}
+	for id, n := range idsThisRound {
+		if n > 1 {
+			viol("request-id-shared", fmt.Sprintf("%d concurrent requests of this round got the same request id %q", n, id))
+		}
+	}
+	if hasIDHandler {
+		out.Count("rounds_with_request_ids_compared", 1)
 	}
 	out.Count(fmt.Sprintf("rounds_R_%d", len(specs)), 1)
 	if round < 2 {
@@ -491,7 +668,7 @@ func c18round(out *evid.Out, f *evid.Flags, round int, specs []reqSpec) {
 		for _, op := range specs[0].script {
 			names = append(names, rOpNames[op])
 		}
-		s := map[string]interface{}{"handlers": hn, "access_handler_position": accessPos, "concurrent_requests": len(specs), "first_request_script": names}
+		s := map[string]interface{}{"handlers": hn, "access_handler_position": accessPos, "second_access_handler_position": access2Pos, "concurrent_requests": len(specs), "first_request_script": names}
 		if len(dest.ev) > 0 {
 			s["first_event"] = string(dest.ev[0])
 		}
